@@ -1,7 +1,11 @@
 import TracklibVerif.Model.DTW
 /-! Executable model of `match` / `compare` in the DTW, FDTW and FRECHET modes of
-`tracklib/algo/comparison.py` (`_distance`, `_p2weight`, `_dtw`, `_fdtw`, `_update_node`,
-`_fillAF_dtw`, `_dtw_comparison`, `_fdtw_comparison`), table style, as the code is after 42f835b.
+`tracklib/algo/comparison.py`, table style, as the code is after 42f835b: the two algorithms `_dtw` and `_fdtw`
+(+ `_update_node`, `priority_dict.pop_smallest` by its contract) for any accumulation, `_distance`, `_fillAF_dtw` on
+`output = track1.copy()` (which may already carry the features of an earlier matching: `fillAFOn`), and, in the last
+part of the file, the calls as a user makes them: `_p2weight` as its cascade of tests on the type name and the value of
+`p`, `match` / `compare` dispatching on the integer mode constants, `_dtw_comparison` / `_fdtw_comparison`, and sessions of
+calls on shared objects (`runSeq`).
 
 Conventions, as in the Python: rows `i` index **track2**, columns `j` index **track1**;
 `D[i,j] = _distance(track2[i], track1[j])`; the tables are kept as lists of *columns*
@@ -90,17 +94,6 @@ def distance (sqrt : α → α) (dim : Nat) (p1 p2 : Pt α) : α :=
     if dim = 2 then sqrt (e * e + n * n)
     else let u := p2.z - p1.z; sqrt (e * e + n * n + u * u)
 
-/-- exponent of the Lp accumulation -/
-inductive PNorm
-  | one | two | inf
-  deriving DecidableEq, Repr
-
-/-- `_p2weight(p)`: `A + B**p`, or `max(A, B)` for `p = inf` -/
-def weight : PNorm → α → α → α
-  | .one, a, b => a + b
-  | .two, a, b => a + b * b
-  | .inf, a, b => pmax a b
-
 /-- columns of `D`: `D[i,j] = _distance(track2[i], track1[j], dim)` -/
 def distCols (sqrt : α → α) (dim : Nat) (t1 t2 : List (Pt α)) : List (List α) :=
   t1.map (fun q => t2.map (fun p => distance sqrt dim p q))
@@ -132,11 +125,24 @@ def fillStep (sqrt : α → α) (dim : Nat) (t1 t2 : List (Pt α)) (acc : Option
                            ex := some (p1.x - p2.x), ey := some (p1.y - p2.y) }, nb + 1)
     | _, _, _ => none
 
-/-- `_fillAF_dtw`: the pairs of `S` are visited from the end of the list (the pair `(0,0)`) to its head -/
-def fillAF (sqrt : α → α) (dim : Nat) (t1 t2 : List (Pt α)) (S : List (Nat × Nat)) (score : α) : Option (Out α) :=
-  match S.reverse.foldl (fillStep sqrt dim t1 t2) (some (t1.map (fun _ => {}), 0)) with
+/-- `_fillAF_dtw(output, …)` where `output = track1.copy()` already carries the feature rows `rows0` (those of a
+track that went through an earlier `match`, or features the user created under the same names; a track without them
+gets them from `createAnalyticalFeature`, a no-op for the names that exist): the loop
+`for i in range(len(output)): output.setObsAnalyticalFeature("pair", i, [])` empties every link list, then the pairs of
+`S` are visited from the end of the list (the pair `(0,0)`) to its head -/
+def fillAFOn (sqrt : α → α) (dim : Nat) (t1 t2 : List (Pt α)) (rows0 : List (Row α)) (S : List (Nat × Nat)) (score : α) :
+    Option (Out α) :=
+  match S.reverse.foldl (fillStep sqrt dim t1 t2) (some (rows0.map (fun r => { r with pair := [] }), 0)) with
   | some (rows, nb) => some { score := score, S := S, rows := rows, nbLinks := nb }
   | none => none
+
+/-- the feature rows of a track that carries none of `diff`, `pair`, `ex`, `ey` yet (`none` = the creation default `0.0`,
+never read: every observation is linked, so every row is overwritten) -/
+def freshRows (t1 : List (Pt α)) : List (Row α) := t1.map (fun _ => {})
+
+/-- `_fillAF_dtw` on a track1 without earlier features -/
+def fillAF (sqrt : α → α) (dim : Nat) (t1 t2 : List (Pt α)) (S : List (Nat × Nat)) (score : α) : Option (Out α) :=
+  fillAFOn sqrt dim t1 t2 (freshRows t1) S score
 
 /-- `_dtw` from the distance matrix to the backward step: `(T[-1,-1], S)` -/
 def dtwCore {α : Type} [LT α] [LE α] [DecidableLT α] [DecidableLE α]
@@ -146,10 +152,14 @@ def dtwCore {α : Type} [LT α] [LE α] [DecidableLT α] [DecidableLE α]
   let last ← cellAt tab (n2 - 1) (n1 - 1)      -- `T[-1,-1]`: IndexError on an empty track
   some (last.1, S)
 
-/-- `_dtw(track1, track2, weight, dim)` -/
-def dtw (sqrt : α → α) (w : α → α → α) (dim : Nat) (t1 t2 : List (Pt α)) : Option (Out α) := do
+/-- `_dtw(track1, track2, weight, dim)` on a `track1` that carries the feature rows `rows0` -/
+def dtwOn (sqrt : α → α) (w : α → α → α) (dim : Nat) (rows0 : List (Row α)) (t1 t2 : List (Pt α)) : Option (Out α) := do
   let (score, S) ← dtwCore w 0 t1.length t2.length (distCols sqrt dim t1 t2)
-  fillAF sqrt dim t1 t2 S score
+  fillAFOn sqrt dim t1 t2 rows0 S score
+
+/-- `_dtw(track1, track2, weight, dim)` on a `track1` without earlier features -/
+def dtw (sqrt : α → α) (w : α → α → α) (dim : Nat) (t1 t2 : List (Pt α)) : Option (Out α) :=
+  dtwOn sqrt w dim (freshRows t1) t1 t2
 
 /-! ### `_fdtw`: best-first search with `priority_dict` -/
 
@@ -206,8 +216,9 @@ def fdtwLoop (big : α) (w : α → α → α) (D : Nat → Nat → Option α) (
       (relax big w D node tij (decide (i < n2 - 1)) (i+1, j) st).bind fun st =>
       fdtwLoop big w D n1 n2 fuel st
 
-/-- `_fdtw(track1, track2, weight, dim)` -/
-def fdtw (sqrt : α → α) (big : α) (w : α → α → α) (dim : Nat) (t1 t2 : List (Pt α)) : Option (Out α) := do
+/-- `_fdtw(track1, track2, weight, dim)` on a `track1` that carries the feature rows `rows0` -/
+def fdtwOn (sqrt : α → α) (big : α) (w : α → α → α) (dim : Nat) (rows0 : List (Row α)) (t1 t2 : List (Pt α)) :
+    Option (Out α) := do
   let n1 := t1.length
   let n2 := t2.length
   let dc := distCols sqrt dim t1 t2
@@ -216,34 +227,188 @@ def fdtw (sqrt : α → α) (big : α) (w : α → α → α) (dim : Nat) (t1 t2
   let st ← fdtwLoop big w (cellAt dc) n1 n2 (n1 * n2 + 1) st0
   let S := walk (fun i j => st.A.get? (i, j)) (n1 + n2) (n2 - 1, n1 - 1)
   let score := (st.T.get? (n2 - 1, n1 - 1)).getD 0
-  fillAF sqrt dim t1 t2 S score
+  fillAFOn sqrt dim t1 t2 rows0 S score
+
+/-- `_fdtw(track1, track2, weight, dim)` on a `track1` without earlier features -/
+def fdtw (sqrt : α → α) (big : α) (w : α → α → α) (dim : Nat) (t1 t2 : List (Pt α)) : Option (Out α) :=
+  fdtwOn sqrt big w dim (freshRows t1) t1 t2
+
+end scalar
+
+
+/-! ### `_p2weight`, the front ends `match` / `compare`, and sequences of calls -/
+
+/-- exponent of the Lp accumulation as a value: a natural number `k` (`p == k`) or infinity -/
+inductive PNorm
+  | nat (k : Nat)
+  | inf
+  deriving DecidableEq, Repr
+
+@[match_pattern] abbrev PNorm.one : PNorm := .nat 1
+@[match_pattern] abbrev PNorm.two : PNorm := .nat 2
 
 /-- matching modes of `match` that the property covers -/
 inductive Mode
   | dtw | fdtw | frechet
   deriving DecidableEq, Repr
 
-/-- `match(track1, track2, mode, p, dim)`. Errors: `output.createAnalyticalFeature("diff")` refuses a track
-without observations (AnalyticalFeatureError); an empty `track2` ends in an IndexError. -/
-def matchTracks (sqrt : α → α) (big : α) (mode : Mode) (p : PNorm) (dim : Nat) (t1 t2 : List (Pt α)) : Except String (Out α) :=
-  if t1.isEmpty then .error "err:AnalyticalFeatureError" else
-  let r := match mode with
-    | .frechet => dtw sqrt (weight .inf) dim t1 t2
-    | .dtw => dtw sqrt (weight p) dim t1 t2
-    | .fdtw => fdtw sqrt big (weight p) dim t1 t2
-  match r with
+/-- `'needle' in hay` on character lists -/
+def hasSub (needle : List Char) : List Char → Bool
+  | [] => needle.isEmpty
+  | c :: tl => needle.isPrefixOf (c :: tl) || hasSub needle tl
+
+/-- what `_p2weight` / `_dtw_comparison` look at in the argument `p`: `str(type(p))` (blanks removed), the number `p`
+compares equal to (`p == 0`, `p == float('inf')`, the exponent of `B**p`; `none`: not a natural number nor infinity), and,
+when `p` is callable, the accumulation it computes (the harness passes `lambda A, B: A + B**k`, `lambda A, B: max(A, B)` or the
+builtin `max`) -/
+structure PArg where
+  tyname : String
+  val : Option PNorm
+  fnw : Option PNorm := none
+  deriving Repr
+
+/-- `'function' in str(type(p))` -/
+def PArg.isFn (a : PArg) : Bool := hasSub "function".toList a.tyname.toList
+/-- `('int' in str(type(p))) or ('float' in str(type(p)))` -/
+def PArg.isNum (a : PArg) : Bool := hasSub "int".toList a.tyname.toList || hasSub "float".toList a.tyname.toList
+/-- the default `p=1` of `match` and `compare` -/
+def PArg.pyInt1 : PArg := { tyname := "<class'int'>", val := some (.nat 1) }
+/-- `float('inf')`, what the FRECHET modes hand to `_dtw_matching` / `_dtw_comparison` -/
+def PArg.pyInf : PArg := { tyname := "<class'float'>", val := some .inf }
+
+section front
+variable {α : Type} [Add α] [Sub α] [Mul α] [Div α] [LT α] [LE α] [DecidableLT α] [DecidableLE α] [OfNat α 0] [OfNat α 1]
+
+/-- `B**k` for a natural exponent, by repeated multiplication (`B**1 = B`, `B**2 = B*B`) -/
+def npow (b : α) : Nat → α
+  | 0 => 1
+  | 1 => b
+  | k+2 => npow b (k+1) * b
+
+/-- the accumulation `_p2weight(p)` returns for a number `p`: `A + (B != 0)*1` for `p = 0`, `A + B**p` for
+`p = 1, 2, 3, …`, `max(A, B)` for `p = inf` -/
+def weight : PNorm → α → α → α
+  | .nat 0, a, b => a + (if b < 0 ∨ 0 < b then 1 else 0)
+  | .nat (k+1), a, b => a + npow b (k+1)
+  | .inf, a, b => pmax a b
+
+/-- `_p2weight(p)`: a cascade of four independent `if`s, each of which may (re)bind `weight`:
+`'function' in str(type(p))` → `p` itself; `'int'` or `'float'` in the type name → `A + B**p` (for `p = 0` and `p = inf`
+this binding is replaced by the next two tests, so the value written here for them is immaterial); `p == 0`; `p == float('inf')`.
+When no test fires, `return weight` raises UnboundLocalError (`np.longdouble(2)`, `np.longlong(2)`, `True`, …). -/
+def p2weight (p : PArg) : Except String (α → α → α) :=
+  let w : Option (Except String (α → α → α)) := none
+  let w := if p.isFn then some (match p.fnw with | some v => .ok (weight v) | none => .error "err:type") else w
+  let w := if p.isNum then some (match p.val with | some v => .ok (weight v) | none => .error "unmodelled") else w
+  let w := if p.val = some (.nat 0) then some (.ok (weight (.nat 0))) else w
+  let w := if p.val = some .inf then some (.ok (weight .inf)) else w
+  match w with
+  | some r => r
+  | none => .error "err:UnboundLocalError"
+
+/-- a track as `match` sees it: the positions and the rows of the features `diff`, `pair`, `ex`, `ey` it carries -/
+structure TrackObj (α : Type) where
+  pts : List (Pt α)
+  rows : List (Row α)
+
+/-- a track that never went through `match` -/
+def TrackObj.fresh (pts : List (Pt α)) : TrackObj α := { pts := pts, rows := freshRows pts }
+
+/-- `_dtw_matching` / `_fdtw_matching`: `_dtw(track1, track2, _p2weight(p), dim)`. The argument `_p2weight(p)` is evaluated
+first (UnboundLocalError); `output.createAnalyticalFeature("diff")` refuses a track without observations
+(AnalyticalFeatureError); an empty `track2` ends in an IndexError. -/
+def warpOn (sqrt : α → α) (big : α) (fast : Bool) (p : PArg) (dim : Nat) (a : TrackObj α) (t2 : List (Pt α)) :
+    Except String (Out α) := do
+  let w ← p2weight p
+  if a.pts.isEmpty then .error "err:AnalyticalFeatureError" else
+  match (if fast then fdtwOn sqrt big w dim a.rows a.pts t2 else dtwOn sqrt w dim a.rows a.pts t2) with
   | some o => .ok o
   | none => .error "err:index"
 
-/-- `compare(track1, track2, mode, p, dim)` in the modes DTW / FDTW / FRECHET:
-the score for `p = inf`, `(score/nb_links)**(1/p)` otherwise (`**0.5` is `sqrt` here) -/
-def compareTracks (sqrt : α → α) (ofNat : Nat → α) (big : α) (mode : Mode) (p : PNorm) (dim : Nat)
-    (t1 t2 : List (Pt α)) : Except String α := do
-  let p' := if mode = .frechet then PNorm.inf else p
-  let m ← matchTracks sqrt big mode p dim t1 t2
-  match p' with
-  | .inf => pure m.score
-  | .one => pure (m.score / ofNat m.nbLinks)
-  | .two => pure (sqrt (m.score / ofNat m.nbLinks))
-end scalar
+/-- `match(track1, track2, mode, p, dim)` with `mode` the integer constant as passed
+(`MODE_MATCHING_NN = 1` is another algorithm, outside this model) -/
+def matchCall (sqrt : α → α) (big : α) (mode : Nat) (p : PArg) (dim : Nat) (a : TrackObj α) (t2 : List (Pt α)) :
+    Except String (Out α) :=
+  if mode = 1 then .error "unmodelled"
+  else if mode = 4 then warpOn sqrt big false PArg.pyInf dim a t2
+  else if mode = 2 then warpOn sqrt big false p dim a t2
+  else if mode = 3 then warpOn sqrt big true p dim a t2
+  else .error "err:UnknownModeError"
+
+/-- `_dtw_comparison` (`fast = false`) / `_fdtw_comparison` (`fast = true`): the score for `p = 0`, `p = inf` and (DTW
+only) a callable `p`; `(score/nb_links)**(1.0/p)` otherwise — `1.0/p` is a TypeError for a callable `p` in the fast variant.
+`root k x` stands for `x**(1.0/k)`. -/
+def warpCompare (sqrt : α → α) (root : Nat → α → α) (ofNat : Nat → α) (big : α) (fast : Bool) (p : PArg) (dim : Nat)
+    (a : TrackObj α) (t2 : List (Pt α)) : Except String α := do
+  let m ← warpOn sqrt big fast p dim a t2
+  if p.val = some (.nat 0) ∨ p.val = some .inf ∨ (fast = false ∧ p.isFn = true) then pure m.score
+  else match p.val with
+    | some (.nat k) => pure (root k (m.score / ofNat m.nbLinks))
+    | _ => .error (if p.isFn then "err:type" else "unmodelled")
+
+/-- `compare(track1, track2, mode, p, dim)` in the modes DTW (106), FDTW (107) and FRECHET (108); the other six modes
+(101–105, 109) are other algorithms, outside this model -/
+def compareCall (sqrt : α → α) (root : Nat → α → α) (ofNat : Nat → α) (big : α) (mode : Nat) (p : PArg) (dim : Nat)
+    (a : TrackObj α) (t2 : List (Pt α)) : Except String α :=
+  if mode = 101 ∨ mode = 109 ∨ mode = 102 ∨ mode = 103 ∨ mode = 104 ∨ mode = 105 then .error "unmodelled"
+  else if mode = 108 then warpCompare sqrt root ofNat big false PArg.pyInf dim a t2
+  else if mode = 106 then warpCompare sqrt root ofNat big false p dim a t2
+  else if mode = 107 then warpCompare sqrt root ofNat big true p dim a t2
+  else .error "err:UnknownModeError"
+
+/-- integer constant of a matching mode -/
+def Mode.code : Mode → Nat
+  | .dtw => 2 | .fdtw => 3 | .frechet => 4
+/-- integer constant of the corresponding comparison mode -/
+def Mode.cmpCode : Mode → Nat
+  | .dtw => 106 | .fdtw => 107 | .frechet => 108
+
+/-- a Python `int` with the value of `p` -/
+def PArg.ofNorm (p : PNorm) : PArg :=
+  { tyname := match p with | .inf => "<class'float'>" | .nat _ => "<class'int'>", val := some p }
+
+/-- `match(track1, track2, mode, p, dim)` on two tracks without earlier features, `p` a Python number -/
+def matchTracks (sqrt : α → α) (big : α) (mode : Mode) (p : PNorm) (dim : Nat) (t1 t2 : List (Pt α)) : Except String (Out α) :=
+  matchCall sqrt big mode.code (PArg.ofNorm p) dim (TrackObj.fresh t1) t2
+
+/-- `compare(track1, track2, mode, p, dim)` on two tracks without earlier features, `p` a Python number -/
+def compareTracks (sqrt : α → α) (root : Nat → α → α) (ofNat : Nat → α) (big : α) (mode : Mode) (p : PNorm) (dim : Nat)
+    (t1 t2 : List (Pt α)) : Except String α :=
+  compareCall sqrt root ofNat big mode.cmpCode (PArg.ofNorm p) dim (TrackObj.fresh t1) t2
+
+/-- one call of a session: `match` (`front = true`) or `compare`, on the objects number `a` and `b` of the session -/
+structure Step where
+  front : Bool
+  mode : Nat
+  p : PArg
+  dim : Nat
+  a : Nat
+  b : Nat
+
+/-- what a call returns -/
+inductive Res (α : Type)
+  | matched (o : Out α)
+  | value (v : α)
+  | err (e : String)
+
+/-- a session: the objects are the tracks given at the start, then, in order, what each call returned (the track that
+`match` returns has the positions of its first argument and the feature rows just written; `compare` returns a number and
+a failed call nothing: `none`). A later call may take any earlier object as first or second argument. -/
+def runSeq (sqrt : α → α) (root : Nat → α → α) (ofNat : Nat → α) (big : α) :
+    List (Option (TrackObj α)) → List Step → List (Res α)
+  | _, [] => []
+  | env, st :: rest =>
+    match (env[st.a]?).join, (env[st.b]?).join with
+    | some a, some b =>
+      if st.front then
+        match matchCall sqrt big st.mode st.p st.dim a b.pts with
+        | .ok o => .matched o :: runSeq sqrt root ofNat big (env ++ [some { pts := a.pts, rows := o.rows }]) rest
+        | .error e => .err e :: runSeq sqrt root ofNat big (env ++ [none]) rest
+      else
+        (match compareCall sqrt root ofNat big st.mode st.p st.dim a b.pts with
+          | .ok v => .value v
+          | .error e => .err e) :: runSeq sqrt root ofNat big (env ++ [none]) rest
+    | _, _ => .err "bad-ref" :: runSeq sqrt root ofNat big (env ++ [none]) rest
+
+end front
 end TV.DTW
